@@ -502,7 +502,7 @@ func ruleC11b(c *Ctx, rule string) {
 func init() {
 	register(&PropSpec{
 		ID:          "C11",
-		Explanation: "Decides three structural clauses: (a) SQL sent to partitions is never built by cutting raw text at positions found by keyword search (taint from search results to slice bounds; the existing instances are recorded known findings, any new cut is a violation); (b) the pushdown predicate's shape — pushdown only under pushdownAllowed, which returns true only for partition-confined groups and never with crosstab / sub-query order-limit-offset / unpartitioned tables, collecting parameters injectively and level by level; (c) every cluster plan re-applies ORDER/LIMIT/OFFSET on the leader and HAVING after the leader-side group-by. Added clauses: sub-query ORDER/LIMIT/OFFSET tested on the loop's query variable at every level; top-level OFFSET (known finding K6); WalkOneToOneParams implementations that report parameters are injective operators (known finding K7: goexpr LEN); per-partition/per-sub-query goroutines bind per-iteration values.",
+		Explanation: "Decides three structural clauses: (a) SQL sent to partitions is never built by cutting raw text at positions found by keyword search (taint from search results to slice bounds; the existing instances are recorded known findings, any new cut is a violation); (b) the pushdown predicate's shape — pushdown only under pushdownAllowed, which returns true only for partition-confined groups and never with crosstab / sub-query order-limit-offset / unpartitioned tables, collecting parameters injectively and level by level; (c) every cluster plan re-applies ORDER/LIMIT/OFFSET on the leader and HAVING after the leader-side group-by. Added clauses: sub-query ORDER/LIMIT/OFFSET tested on the loop's query variable at every level; top-level OFFSET (known finding K6); WalkOneToOneParams implementations that report parameters are injective operators (known finding K7: goexpr LEN); per-partition/per-sub-query goroutines bind per-iteration values. Further clauses: the leader of a non-pushdown plan resets AsOf/Until before its group-by; the sub-query field source always forwards _having (= C08.i).",
 		NotDecided:  []string{"semantic equivalence of the two plans per query (translation validation by execution — another family)", "correctness of the partition-side pre-aggregation fields"},
 		Assumptions: []string{"goexpr.WalkOneToOneParams reports only parameters the expression is injective in"},
 		Rules: []func(*Ctx){func(c *Ctx) { ruleC11a(c, "C11.a") }, func(c *Ctx) { ruleC11b(c, "C11.b") }, func(c *Ctx) {
